@@ -100,7 +100,7 @@ package disk
 
 //@ props C09 C10
 
-//@ func NewMemDisk
+//@ func NewMemDisk (numBlocks)
 //@   requires numBlocks < 0x1000000000
 //@   ensures [requested size] uint64(len(result.blocks)) == numBlocks
 //@   ensures [all blocks zero] forall b uint64, i uint64 :: b < numBlocks && i < 4096 ==> at(result.blocks, b, i) == 0
@@ -108,7 +108,7 @@ package disk
 //@   ensures [lock free] !held_w[ref(result.l)] && !held_r[ref(result.l)]
 //@   requires forall r Int :: r >= brk ==> !held_w[r] && !held_r[r]
 
-//@ func (MemDisk).ReadTo
+//@ func (MemDisk).ReadTo (d, a, buf)
 //@   requires d.l != nil && !held_w[ref(d.l)] && !held_r[ref(d.l)] && !didunlock[ref(d.l)]
 //@   requires [caller memory is not disk storage] buf.arr != d.blocks.arr
 //@   requires len(buf) == 4096
@@ -120,7 +120,7 @@ package disk
 //@   ensures [lock released] held_w == old(held_w) && held_r == old(held_r)
 //@   modifies buf, held_r, didunlock
 
-//@ func (MemDisk).Read
+//@ func (MemDisk).Read (d, a)
 //@   requires d.l != nil && !held_w[ref(d.l)] && !held_r[ref(d.l)] && !didunlock[ref(d.l)]
 //@   panics_iff [out-of-range address refused] a >= uint64(len(d.blocks))
 //@   on_panic [nothing changed] unchanged()
@@ -129,7 +129,7 @@ package disk
 //@   ensures [lock released] held_w == old(held_w) && held_r == old(held_r)
 //@   modifies held_r, didunlock
 
-//@ func (MemDisk).Write
+//@ func (MemDisk).Write (d, a, v)
 //@   requires d.l != nil && !held_w[ref(d.l)] && !held_r[ref(d.l)] && !didunlock[ref(d.l)]
 //@   requires [caller memory is not disk storage] v.arr != d.blocks.arr
 //@   lock d.l
@@ -140,12 +140,12 @@ package disk
 //@   ensures [lock released] held_w == old(held_w) && held_r == old(held_r)
 //@   modifies elems(d.blocks), held_w, didunlock
 
-//@ func (MemDisk).Size
+//@ func (MemDisk).Size (d)
 //@   lock d.l
 //@   ensures [number of blocks] result == uint64(len(d.blocks))
 
-//@ func (MemDisk).Barrier
-//@ func (MemDisk).Close
+//@ func (MemDisk).Barrier (d)
+//@ func (MemDisk).Close (d)
 
 // ---- FileDisk: view(d)[b][i] = kdata[fino[d.fd]][b*4096+i], size = d.numBlocks -----------------
 
@@ -154,7 +154,7 @@ package disk
 
 //@ props C09 C11
 
-//@ func NewFileDisk
+//@ func NewFileDisk (path, numBlocks)
 //@   requires [size fits a file offset] numBlocks <= 0x7ffffffffffff
 //@   requires [kernel invariant: file sizes are not negative] forall i Int :: ksize[i] >= 0
 //@   may_panic
@@ -167,21 +167,21 @@ package disk
 //@   ensures [other files untouched] forall i Int :: i != kdent[path] ==> kdata[i] == old(kdata)[i] && ksize[i] == old(ksize)[i]
 //@   modifies kdent, kreg, kdata, ksize, kddata, kdsize, fopen, fino
 
-//@ func (FileDisk).ReadTo
+//@ func (FileDisk).ReadTo (d, a, buf)
 //@   requires finv(d)
 //@   may_panic
 //@   panics_if [wrong-sized buffer or out-of-range address refused] len(buf) != 4096 || a >= d.numBlocks
 //@   ensures [buffer holds the block] kreg[fino[d.fd]] ==> forall i uint64 :: i < 4096 ==> buf[i] == fbyte(d, a, i)
 //@   modifies buf
 
-//@ func (FileDisk).Read
+//@ func (FileDisk).Read (d, a)
 //@   requires finv(d)
 //@   may_panic
 //@   panics_if [out-of-range address refused] a >= d.numBlocks
 //@   ensures [one fresh block] len(result) == 4096 && fresh(result)
 //@   ensures [holds the block] kreg[fino[d.fd]] ==> forall i uint64 :: i < 4096 ==> result[i] == fbyte(d, a, i)
 
-//@ func (FileDisk).Write
+//@ func (FileDisk).Write (d, a, v)
 //@   requires finv(d)
 //@   may_panic
 //@   panics_if [wrong-sized buffer or out-of-range address refused] len(v) != 4096 || a >= d.numBlocks
@@ -191,16 +191,16 @@ package disk
 //@   ensures [other files untouched] forall i Int :: i != fino[d.fd] ==> kdata[i] == old(kdata)[i] && ksize[i] == old(ksize)[i]
 //@   modifies kdata, ksize
 
-//@ func (FileDisk).Size
+//@ func (FileDisk).Size (d)
 //@   ensures [number of blocks] result == d.numBlocks
 
-//@ func (FileDisk).Barrier
+//@ func (FileDisk).Barrier (d)
 //@   requires finv(d)
 //@   may_panic
 //@   ensures [durable copy equals contents] kddata[fino[d.fd]] == kdata[fino[d.fd]] && kdsize[fino[d.fd]] == ksize[fino[d.fd]]
 //@   modifies kddata, kdsize
 
-//@ func (FileDisk).Close
+//@ func (FileDisk).Close (d)
 //@   requires fopen[d.fd]
 //@   may_panic
 //@   ensures [descriptor released] !fopen[d.fd]
@@ -230,17 +230,17 @@ package disk
 
 //@ props C09
 
-//@ func Init
+//@ func Init (d)
 //@   ensures [global disk set] implicitDisk == d
 //@   modifies implicitDisk
 //@ func Get
 //@   ensures [global disk returned] result == implicitDisk
-//@ func Read
+//@ func Read (a)
 //@   requires implicitDisk != nil
 //@   may_panic
 //@   panics_if [out-of-range address refused] a >= dsize[implicitDisk.val]
 //@   ensures [one fresh block of the global disk] len(result) == 4096 && fresh(result) && forall i uint64 :: i < 4096 ==> result[i] == dview[implicitDisk.val][a][i]
-//@ func Write
+//@ func Write (a, v)
 //@   requires implicitDisk != nil
 //@   may_panic
 //@   panics_if [wrong-sized buffer or out-of-range address refused] len(v) != 4096 || a >= dsize[implicitDisk.val]
